@@ -13,7 +13,8 @@ Variable entries : xml -> mentries.
 Variable kids : xml -> list kid.
 Variable mime : bytes -> mtype.
 Variable rdf0 : bytes.
-Variable mask : xml -> xml.
+Variable proj : Type.
+Variable mask : xml -> proj.
 Hypothesis par_ser : forall x, par (ser x) = x.
 Notation container := (container bytes).
 Notation document := (document xml bytes).
@@ -24,8 +25,8 @@ Notation dB := (dB xml bytes kid).
 Notation dX := (dX xml bytes kid par).
 Notation WFd := (WFd xml bytes kid).
 Notation d_tree := (d_tree xml bytes kid par FIXED).
-Notation view := (view xml bytes kid par mask).
-Notation file_view := (file_view xml bytes kid par mask).
+Notation view := (view xml bytes kid par proj mask).
+Notation file_view := (file_view xml bytes kid par proj mask).
 Notation d_save := (d_save xml bytes kid ser par pretty stamp entries kids mime rdf0 FIXED).
 Notation ser_loop := (ser_loop xml bytes kid ser par pretty FIXED).
 Notation check_rdf := (check_rdf xml bytes kid par entries rdf0 FIXED).
